@@ -72,29 +72,40 @@ def fns_of(inp):
     return P.STATIC if P.INPUTS[inp]["kind"] == "static" else P.DSFN
 
 
-def small_variants(inp, depth):
+def small_variants(inp, depth, tier="quick"):
     fns = fns_of(inp)
     out = []
     for d in range(1, depth + 1):
         for hist in itertools.product(fns, repeat=d):
+            if tier == "quick" and P.INPUTS[inp]["kind"] == "ds" and d == 2 and hist[0] != hist[1] \
+                    and "fns" not in P.INPUTS[inp]:
+                # designspace builds are the expensive ones: per seed only f and f,f; the full
+                # cross-function histories run on the seeds of the full variant product
+                continue
             out.append({"lib": "ufoLib2", "load": "memory", "inplace": False, "history": list(hist), "perm": None})
     return out
 
 
-def full_variants(inp, nperm):
+FULL_PARTS = [("ufoLib2", "memory"), ("ufoLib2", "disk-lazy"), ("ufoLib2", "disk-eager"), ("defcon", "memory"),
+              ("defcon", "disk-eager"), ("perm", None)]
+
+
+def full_variants(inp, nperm, part):
+    """One slice (UFO library x load mode, or the construction-order permutations) of the full product;
+    the slices are separate states so that no single subprocess dominates the wall time."""
     fns = fns_of(inp)
     out = []
     hists = [[f] for f in fns] + [[g, f] for g in fns for f in fns]
-    for lib, loads in (("ufoLib2", ["memory", "disk-lazy", "disk-eager"]), ("defcon", ["memory", "disk-eager"])):
-        for load in loads:
-            for inplace in (False, True):
-                for h in hists:
-                    out.append({"lib": lib, "load": load, "inplace": inplace, "history": h, "perm": None})
-    if inp in ("rich", "rich+fea", "ds2"):
+    lib, load = FULL_PARTS[part]
+    if lib != "perm":
+        for inplace in (False, True):
+            for h in hists:
+                out.append({"lib": lib, "load": load, "inplace": inplace, "history": h, "perm": None})
+    elif inp in ("rich", "rich+fea", "ds2"):
         f0 = fns[0]
         for k in range(nperm):
-            for lib in ("ufoLib2", "defcon"):
-                out.append({"lib": lib, "load": "memory", "inplace": False, "history": [f0], "perm": k})
+            for lib2 in ("ufoLib2", "defcon"):
+                out.append({"lib": lib2, "load": "memory", "inplace": False, "history": [f0], "perm": k})
     return out
 
 
@@ -120,7 +131,8 @@ class C08(Property):
         return {"depth": 2, "seeds": seeds, "orders_total": total, "orders_realised": realised,
                 "refdir": refdir, "hist_depth": 2 if tier == "quick" else 3,
                 "full_seeds": [0, 1] if tier == "quick" else [0, 1, 2, 3],
-                "nperm": 24 if tier == "quick" else 48, "nprobe": nprobe}
+                "nperm": 24 if tier == "quick" else 48, "nprobe": nprobe,
+                "history_input_seeds": 4 if tier == "quick" else 12}
 
     def initial(self, b):
         return [[{"input": i, "role": "ref"}] for i in P.INPUTS]
@@ -128,10 +140,16 @@ class C08(Property):
     def ops(self, h, b):
         if len(h) != 1:
             return
-        for s in b["seeds"]:
+        seeds = b["seeds"]
+        if "fns" in P.INPUTS[h[0]["input"]]:
+            seeds = seeds[:b["history_input_seeds"]]  # inputs that exist for a call-history effect only
+        for s in seeds:
             yield {"seed": s, "mode": "small"}
         for s in b["full_seeds"]:
-            yield {"seed": s, "mode": "full"}
+            for part in range(len(FULL_PARTS)):
+                if FULL_PARTS[part][0] == "perm" and h[0]["input"] not in ("rich", "rich+fea", "ds2"):
+                    continue
+                yield {"seed": s, "mode": "full", "part": part}
 
     def run(self, h, b):
         inp = h[0]["input"]
@@ -152,7 +170,7 @@ class C08(Property):
             return Result(viols, {"reference_runs": len(variants)}, digest(ref), substates=len(variants), nontrivial=0)
         ref = json.load(open(refpath))
         seed, mode = h[1]["seed"], h[1]["mode"]
-        variants = small_variants(inp, b["hist_depth"]) if mode == "small" else full_variants(inp, b["nperm"])
+        variants = small_variants(inp, b["hist_depth"], b["tier"]) if mode == "small" else full_variants(inp, b["nperm"], h[1]["part"])
         out = run_sub(seed, {"input": inp, "variants": variants})
         viols, seen, failing = [], set(), []
         ctr = {"subprocesses": 1, "variants": len(variants), "compared": 0}
